@@ -89,6 +89,36 @@ CLAIMS = {
         note=BOUNDED_NOTE + "History quantifier: induction over per-call frames (stated, not mechanised).",
         technique="frame/ownership contracts on the real mutators checked by bounded symbolic execution (pyvc), z3; replay on real code",
         design_ref="DESIGN.md section 3 C04"),
+    'C17': dict(
+        text="The real NodeSliver.diff / NetworkServiceSliver.diff / InterfaceSliver.diff / BaseSliver.prop_diff (with _dict_diff, "
+             "_dict_common, __eq__, __hash__, Labels/Capacities/JSON-blob equality) are executed for every combination of present / "
+             "absent children over a small name alphabet with symbolic property values; obligations: added = names only in new, "
+             "removed = names only in old, modified flags = exactly the tracked properties that differ (user data: JSON texts), "
+             "None iff nothing differs, added(old,new) = removed(new,old), identical copy => no difference.",
+        note="Child collections are drawn from {c1,c2} / {s1} / {i1,i2} / {sub1,sub2}; tracked properties carry one symbolic field each.",
+        technique="contract-based deductive verification: set-algebra postconditions on the real diff functions, per-path VCs (z3), "
+                  "counter-models replayed on the real code",
+        design_ref="DESIGN.md section 3 C17"),
+    'C11': dict(
+        text="Per-sliver contribution contracts on the real collector methods: after a call every attribute list is the previous list "
+             "plus exactly this sliver's contribution (site once, cpu/ram/disk, one entry per component, bandwidth, per-type site of "
+             "externally routed services and of mirror services whose port is outside the slice), nothing collected earlier is removed, "
+             "two services visited in either order give the same attribute sets; PDP request carries every attribute once in its "
+             "category; lifetime arithmetic proved over unbounded integers; accounting counters increase by exactly the element's amount.",
+        note="Prior attribute lists hold 0..2 symbolic entries (those obligations are counted as bounded). The walk over a whole "
+             "topology / serialized model (_collect_attributes_from_topo/_asm) is covered only through the per-element contracts it "
+             "calls once per node, service and facility (read, not mechanised).",
+        technique="contract-based deductive verification: per-call contribution + monotonicity postconditions on the real methods, "
+                  "order independence as a two-run lemma harness, z3; replay on real code",
+        design_ref="DESIGN.md section 3 C11"),
+    'C12': dict(category='other',
+        text="Delegations.to_json/from_json round trip (ids, formats, pool names, details), rejection of wrong-kind details, details on "
+             "a reference, duplicate ids and mixed types, single definition per pool, and pools -> per-node delegations -> pools "
+             "regrouping are checked on the real functions with symbolic ids, pool names, node ids and detail values.",
+        note="Bounded: containers of 1..2 delegations, pool families of <= 2 pools over 3 nodes. Known finding KF-C12-1 (a node needing "
+             "two entries under one delegation id cannot be expressed) is recorded; one defect repaired (all-zero details).",
+        technique="contracts on the real codec / regrouping functions checked by bounded symbolic execution (pyvc), z3; replay on real code",
+        design_ref="DESIGN.md section 3 C12"),
     'C16': dict(
         text="For every label field the real Labels._set_fields is proved, for all strings, to accept exactly the documented domain "
              "(published pattern matched against the whole string with CPython regex semantics incl. Unicode classes, plus the "
